@@ -191,4 +191,20 @@ PROPS = {
         "assumptions": COMMON_ASSUME + ["scenarios are representative call sequences per allocating entry point, not all programs",
                                         "k is sampled uniformly per scenario; with >1e5 runs per check every (scenario, k, mode) triple is hit many times (coverage reported through probes)"],
     },
+    "C20": {
+        "harness": "neutral",
+        "variants": ["A.c11.posix", "A.c11.general"],
+        "quick_s": 14, "thorough_s": 300,
+        "level": "exploration",
+        "rule": ("one evaluation = one generated program of 5-40 (thorough 60) steps over a pool of live objects of 20 kinds (list, hash table, trees that own heap keys/values, INI, "
+                 "crypto hash, error, directory, socket address, sockets incl. refused / timed-out / accepted connections, semaphore, shm, shm buffer with equal and different "
+                 "sizes, joinable and detached threads, TLS keys, mutex, condition variable, rwlock, spinlock, library loader, profiler): create / use / free in random order, "
+                 "everything freed at the end (IPC objects by an owner), with allocation failures (p in {0, 0.01, 0.05}) and up to two planned failing system calls plus "
+                 "failing pthread_create / pthread_key_create; oracle: allocator, descriptor table, VM table, IPC name space, real streams/handles and native lock objects all "
+                 "back at the baseline, every descriptor closed exactly once; distinct = distinct event-log hash; non-trivial = more than one context switch or one fired fault"),
+        "probes": ["neutral." + n for n in ["list", "hash", "tree", "ini", "cryptohash", "error", "dir", "sockaddr", "socket", "semaphore", "shm", "shmbuffer", "thread", "tlskey",
+                   "mutex", "cond", "rwlock", "spinlock", "loader", "profiler", "allocation_failed", "tree_removed", "tree_6_nodes"]],
+        "components": {"real": ["every module of the library"], "stub": ["allocator (p_mem_set_vtable)"] + STUB_KERNEL + STUB_NET + STUB_PTHREAD + ["fopen/opendir/dlopen: real, counted, failable"]},
+        "assumptions": COMMON_ASSUME + ["native TLS keys (pthread_key_t slots) are not counted as a resource: the statement lists memory, descriptors, mappings and IPC names"],
+    },
 }
